@@ -54,6 +54,15 @@ WHAT = {
  "C14-r3-mut1": "after-prev check against the search cursor instead of prev", "C14-r3-mut2": "second pass looked up with the offset of 1 January",
  "C14-r3-mut3": "gap-skipping loop bounded by 3600 iterations", "C15-r3-mut1": "ScheduleJob reads `started` before the queue lock (slow Push overlapping Start)",
  "C15-r3-mut2": "interrupt branch no longer stops/drains the timer (stale tick ends the back-off)", "C15-r3-mut3": "error of the Size() asked after an empty Pop ignored (busy loop)",
+ "C01-r3-mut1": "`maxYear = 2262` (UnixNano wraps after 2262-04-11)", "C01-r3-mut2": "`L-n` clamped to the 1st in a month that has no such day",
+ "C01-r3-mut3": "unreachable years trimmed from the year list (all years > 2261: empty list = wildcard)", "C04-r3-mut1": "not-due branch merged with the valid branch (early-popped job loses its pending fire time)",
+ "C04-r3-mut2": "only ErrTriggerExpired counts as no further fire time (other trigger errors: job pushed back, back-off)", "C04-r3-mut3": "clock read at the tick, before waiting for the queue lock",
+ "C08-r3-mut1": "listing helper sorted by next run time (its index is used into the heap array)", "C08-r3-mut2": "ScheduleJob asks the trigger even for a suspended job",
+ "C08-r3-mut3": "IsStarted() read before the queue lock in all five mutators", "C09-r3-mut1": "sorted listing breaks the index use in Push and Remove",
+ "C09-r3-mut2": "Push reads the Replace option of the queued entry", "C09-r3-mut3": "ScheduleJob asks the trigger even for a job handed in suspended",
+ "C11-r3-mut1": "heap comparator by subtraction (wraps when priorities are 2^63 apart)", "C11-r3-mut2": "group matcher normalises an empty pattern to the default group",
+ "C11-r3-mut3": "Push reads the Replace option of the queued entry", "C12-r3-mut1": "pool capped at GOMAXPROCS", "C12-r3-mut2": "a worker leaves when a job fails with a context error",
+ "C12-r3-mut3": "live-worker accounting across restarts (old workers counted, never replaced)",
  "C18-mut1": "lock released before Output", "C18-mut2": "message used as format string", "C18-mut3": "slog threshold cached at construction with an off-by-one probe",
 }
 rows = []
